@@ -1,17 +1,22 @@
 import LunaVerif.Core.Proto
 import LunaVerif.Model.Usb2.ControlCycSys
+import LunaVerif.Model.Usb2.ControlCycX
 open LunaVerif LunaVerif.Proto LunaVerif.Device LunaVerif.CtrlCyc LunaVerif.StreamGen
 
 /-!
 Line-protocol driver of the CYCLE-level model of `USBControlEndpoint` + multiplexer + `StandardRequestHandler`
 (Model/Usb2/ControlCyc.lean); harness side: harness/props/c07_cyc.py.
 
-config line : `# endpoint_number max_packet_size kind n (type index len byte*)*`   kind 0: the descriptor handler is
+config line : `# endpoint_number max_packet_size kind+2*nx n (type index len byte*)*`   kind 0: the descriptor handler is
               `GetDescriptorHandlerBlock` over these descriptors (insertion order) -- its model runs in the loop;
-              kind 1: another descriptor handler (distributed): the `blk.*` columns echo the inputs
+              kind 1: another descriptor handler (distributed): the `blk.*` columns echo the inputs;
+              nx = number of additional request handlers behind the multiplexer (Model/Usb2/ControlCycX.lean)
 input line  : tokEp newToken readyForResponse isIn isOut isSetup isPing  rxReady hsAck activeConfig txReady
               received sdAck  su.isIn su.type su.recipient su.request su.value su.index su.length
               dValid dFirst dLast dPayload dStall  tValid tFirst tLast tPayload
+              then per additional handler (its interface outputs, sampled from the real handler):
+              claim ack stall txValid txFirst txLast txPayload txDataPid addressChanged newAddress configChanged
+              newConfig cehEnable cehDirection cehNumber
 output line : ack nak stall txValid txFirst txLast txPayload txPidToggle addressChanged newAddress configChanged
               newConfig cehEnable cehDirection cehNumber  dataRequested statusRequested hsAckForwarded
               h.claim h.ack h.stall h.dStart h.dReady h.tStart h.tReady h.tMaxLen h.tData0
@@ -43,6 +48,18 @@ def parseIn (xs : List Nat) : CycIn :=
     dValid := b 20, dFirst := b 21, dLast := b 22, dPayload := f 23, dStall := b 24,
     tValid := b 25, tFirst := b 26, tLast := b 27, tPayload := f 28 }
 
+/-- the 15 interface outputs of one additional request handler -/
+def parseX (xs : List Nat) : HOut :=
+  let f := fld xs
+  let b := fun k => n2b (f k)
+  { claim := b 0, ack := b 1, stall := b 2, txValid := b 3, txFirst := b 4, txLast := b 5, txPayload := f 6,
+    txDataPid := b 7, addressChanged := b 8, newAddress := f 9, configChanged := b 10, newConfig := f 11,
+    cehEnable := b 12, cehDirection := b 13, cehNumber := f 14 }
+
+def parseXs : Nat → List Nat → List HOut
+  | 0, _ => []
+  | n + 1, xs => parseX (xs.take 15) :: parseXs n (xs.drop 15)
+
 def stageCode : Stage → Nat
   | .setup => 0 | .dataIn => 1 | .dataOut => 2 | .statusIn => 3 | .statusOut => 4
 
@@ -67,6 +84,7 @@ partial def parseDescrs : Nat → List Nat → List Desc.Descr
 
 structure DrvState where
   c  : Cfg
+  nx : Nat
   bc : Option Desc.Block.Config
   s  : Sys2State
 
@@ -74,12 +92,12 @@ def main : IO Unit :=
   runDriver (σ := DrvState)
     (fun cfg =>
       let c : Cfg := { epNum := fld cfg 0, maxPacket := fld cfg 1 }
-      let bc := if fld cfg 2 = 0 then some ⟨Desc.Rom.layout (parseDescrs (fld cfg 3) (cfg.drop 4)), fld cfg 1⟩ else none
-      ⟨c, bc, sys2Init⟩)
+      let bc := if fld cfg 2 % 2 = 0 then some ⟨Desc.Rom.layout (parseDescrs (fld cfg 3) (cfg.drop 4)), fld cfg 1⟩ else none
+      ⟨c, fld cfg 2 / 2, bc, sys2Init⟩)
     (fun st row =>
       let i := parseIn row
       let s := st.s
-      let (cs', o) := step st.c s.cs i
+      let (cs', o) := stepX st.c s.cs i (parseXs st.nx (row.drop 29))
       let (ser', so) := serCycle st.c ⟨s.cs, s.ser⟩ i
       let (blk', bo) := match st.bc with
         | some bc => blkCycle st.c bc s.cs s.blk i
